@@ -801,7 +801,8 @@ def simplify(constraints, variables='x', target=None, **kwds):
     import random
     import itertools as it
     all = kwds['all'] if 'all' in kwds else False
-    cons = absval(constraints, **kwds) #NOTE: only uses all,verbose
+    # get every case due to absolute values (one with no solution is dropped)
+    cons = absval(constraints, **dict(kwds, all=True)) #NOTE: only uses all,verbose
     kwds['variables'] = variables
     kwds['target'] = target
     #import klepto as kl
@@ -814,6 +815,9 @@ def simplify(constraints, variables='x', target=None, **kwds):
     cons = [simple(ci, **kwds) for ci in cons] if type(cons) is tuple else simple(cons, **kwds)
     #simple.__cache__().clear() #NOTE: clear stored entries
     eqns = tuple(it.chain.from_iterable(i if type(i) is tuple else (i,) for i in cons)) if type(cons) is list else (cons if type(cons) is tuple else (cons,))
+    # a case (from an absolute value) without a solution contributes nothing
+    if len(eqns) and eqns.count(None) == len(eqns): return None
+    eqns = tuple(e for e in eqns if e is not None)
     return (eqns if all else eqns[random.randint(0,len(eqns)-1)]) if len(eqns) > 1 else (eqns[0] if len(eqns) else '') #FIXME: len(eqns) = 0 --> Error, '', ???
 simplify.__doc__ = _simplify.__doc__
 
